@@ -14,13 +14,19 @@
 (* An UNDATED update (an ordinary edit) runs steps 3-5 only and leaves the  *)
 (* new values installed; since the repair of the roll-back (93c3c70) a      *)
 (* failure at any step undoes everything, like a failed simulation.         *)
+(* Several simulations can be made one after the other on one system: each  *)
+(* keeps its own two lists; the system remembers the last one STARTED       *)
+(* (system.simulation, taken even by a simulation that is then refused);    *)
+(* any of them can be switched on and back off while the others are off.    *)
 (* Small fixed shape: input in1; outside ancestors a1 (hourly) and a2;      *)
 (* recomputed r1 (reads in1, a1) and r2 (reads r1, a2).                     *)
 (***************************************************************************)
 EXTENDS Naturals, Sequences, FiniteSets, TLC
 
 CONSTANTS RestoreOnFailure,    \* the repaired behaviour: a failing simulation undoes what it swapped
-          Structural           \* the change list contains a link change (outside ancestors are copied)
+          Structural,          \* the change list contains a link change (outside ancestors are copied)
+          MaxSims,             \* how many simulations are kept side by side
+          ResetOnlyLatest      \* FALSE = the code; TRUE = a seeded change (only the last started simulation puts the baseline back)
 
 Slots == {"in1", "a1", "a2", "r1", "r2"}
 ReadsOf(s) == CASE s = "r1" -> {"in1", "a1"} [] s = "r2" -> {"r1", "a2"} [] OTHER -> {}
@@ -29,17 +35,18 @@ VARIABLES tok,       \* slot -> token currently in the slot
           anc,       \* token -> set of tokens recorded as ancestors
           chld,      \* token -> set of tokens registered as children
           next,      \* next fresh token
-          sim,       \* [prev, new : Seq(token), slots : Seq(slot), set, exists : BOOLEAN]
+          sims,      \* sequence of [prev, new : Seq(token), slots : Seq(slot), set : BOOLEAN], in order of creation
+          latest,    \* what system.simulation designates: 0 = none, k = sims[k], MaxSims + 1 = a simulation that was refused
           base,      \* the baseline: [tok : slot -> token, chld : token -> children] as left by the last accepted edit
           out        \* outcome of the last action
-vars == <<tok, anc, chld, next, sim, base, out>>
+vars == <<tok, anc, chld, next, sims, latest, base, out>>
+AnySet == \E k \in DOMAIN sims : sims[k].set
 
 Tok0 == [s \in Slots |-> CASE s = "in1" -> 1 [] s = "a1" -> 2 [] s = "a2" -> 3 [] s = "r1" -> 4 [] s = "r2" -> 5]
 Anc0 == [t \in 1..5 |-> CASE t = 4 -> {1, 2} [] t = 5 -> {4, 3} [] OTHER -> {}]
 Chld0 == [t \in 1..5 |-> {c \in 1..5 : t \in Anc0[c]}]
 
-NoSim == [prev |-> <<>>, new |-> <<>>, slots |-> <<>>, set |-> FALSE, exists |-> FALSE]
-Init == tok = Tok0 /\ anc = Anc0 /\ chld = Chld0 /\ next = 6 /\ sim = NoSim /\ base = [tok |-> Tok0, chld |-> Chld0] /\ out = "init"
+Init == tok = Tok0 /\ anc = Anc0 /\ chld = Chld0 /\ next = 6 /\ sims = <<>> /\ latest = 0 /\ base = [tok |-> Tok0, chld |-> Chld0] /\ out = "init"
 
 (* world W = [tok, anc, chld, next]; replacing the content of a slot detaches the old token (it unregisters  *)
 (* from its ancestors' children) and attaches the new one (it registers)                                      *)
@@ -79,43 +86,49 @@ Swap(W, slots, toks, i) == IF i > Len(slots) THEN W ELSE Swap(Put(W, slots[i], t
 RECURSIVE SwapBack(_, _, _, _)
 SwapBack(W, slots, toks, i) == IF i < 1 THEN W ELSE SwapBack(Put(W, slots[i], toks[i]), slots, toks, i - 1)
 
-Install(W, s, o) == tok' = W.tok /\ anc' = W.anc /\ chld' = W.chld /\ next' = W.next /\ sim' = s /\ out' = o /\ UNCHANGED base
+Install(W, s, l, o) == tok' = W.tok /\ anc' = W.anc /\ chld' = W.chld /\ next' = W.next /\ sims' = s /\ latest' = l /\ out' = o /\ UNCHANGED base
 Installed(W) == {W.tok[s] : s \in Slots}
 
 Create(failAt) ==
-    /\ ~sim.set
+    /\ ~AnySet
+    /\ Len(sims) < MaxSims
     /\ next < 40
     /\ LET r == Run(World, 1, failAt, [prev |-> <<>>, new |-> <<>>, slots |-> <<>>], SimSteps) IN
        IF r.failed
-       THEN IF RestoreOnFailure THEN Install(SwapBack(r.W, r.slots, r.prev, Len(r.slots)), sim, "raised")
-            ELSE Install(r.W, sim, "raised")
-       ELSE Install(Swap(r.W, r.slots, r.prev, 1), [prev |-> r.prev, new |-> r.new, slots |-> r.slots, set |-> FALSE, exists |-> TRUE], "created")
+       THEN IF RestoreOnFailure THEN Install(SwapBack(r.W, r.slots, r.prev, Len(r.slots)), sims, MaxSims + 1, "raised")
+            ELSE Install(r.W, sims, MaxSims + 1, "raised")
+       ELSE Install(Swap(r.W, r.slots, r.prev, 1), Append(sims, [prev |-> r.prev, new |-> r.new, slots |-> r.slots, set |-> FALSE]),
+                    Len(sims) + 1, "created")
 
-(* an ordinary (undated) edit of in1: the new values stay; a simulation created on the previous baseline is forgotten *)
+(* an ordinary (undated) edit of in1: the new values stay; the simulations created on the previous baseline are forgotten *)
 Update(failAt) ==
-    /\ ~sim.set
+    /\ ~AnySet
     /\ next < 40
     /\ LET r == Run(World, 1, failAt, [prev |-> <<>>, new |-> <<>>, slots |-> <<>>], PlainSteps) IN
        IF r.failed
-       THEN IF RestoreOnFailure THEN Install(SwapBack(r.W, r.slots, r.prev, Len(r.slots)), sim, "update-raised")
-            ELSE Install(r.W, sim, "update-raised")
-       ELSE /\ tok' = r.W.tok /\ anc' = r.W.anc /\ chld' = r.W.chld /\ next' = r.W.next /\ sim' = NoSim /\ out' = "updated"
+       THEN IF RestoreOnFailure THEN Install(SwapBack(r.W, r.slots, r.prev, Len(r.slots)), sims, latest, "update-raised")
+            ELSE Install(r.W, sims, latest, "update-raised")
+       ELSE /\ tok' = r.W.tok /\ anc' = r.W.anc /\ chld' = r.W.chld /\ next' = r.W.next /\ sims' = <<>> /\ latest' = 0 /\ out' = "updated"
             /\ base' = [tok |-> r.W.tok, chld |-> [t \in Installed(r.W) |-> r.W.chld[t]]]
 
-SetValues ==
-    /\ sim.exists
-    /\ IF sim.set THEN UNCHANGED vars
-       ELSE Install(Swap(World, sim.slots, sim.new, 1), [sim EXCEPT !.set = TRUE], "set")
-ResetValues ==
-    /\ sim.exists
-    /\ IF ~sim.set THEN UNCHANGED vars
-       ELSE Install(Swap(World, sim.slots, sim.prev, 1), [sim EXCEPT !.set = FALSE], "reset")
+(* one simulation at a time is switched on (the others were made on the same baseline and know nothing of its values) *)
+SetValues(k) ==
+    /\ k \in DOMAIN sims
+    /\ \A j \in DOMAIN sims : j # k => ~sims[j].set
+    /\ IF sims[k].set THEN UNCHANGED vars
+       ELSE Install(Swap(World, sims[k].slots, sims[k].new, 1), [sims EXCEPT ![k].set = TRUE], latest, "set")
+ResetValues(k) ==
+    /\ k \in DOMAIN sims
+    /\ IF ~sims[k].set THEN UNCHANGED vars
+       ELSE IF ResetOnlyLatest /\ latest # k THEN Install(World, sims, latest, "reset")      \* (seeded change) returns without doing anything
+       ELSE Install(Swap(World, sims[k].slots, sims[k].prev, 1), [sims EXCEPT ![k].set = FALSE], latest, "reset")
 
-Next == (\E f \in 0..Len(SimSteps) : Create(f)) \/ (\E f \in 0..Len(PlainSteps) : Update(f)) \/ SetValues \/ ResetValues
+Next == (\E f \in 0..Len(SimSteps) : Create(f)) \/ (\E f \in 0..Len(PlainSteps) : Update(f))
+        \/ (\E k \in 1..MaxSims : SetValues(k) \/ ResetValues(k))
 Spec == Init /\ [][Next]_vars
 
 (******************************* properties ********************************)
-BaselineMode == ~sim.set
+BaselineMode == ~AnySet
 (* the very same value objects, and the same dependency graph among them *)
 BaselineIntact ==
     BaselineMode => /\ tok = base.tok
@@ -128,9 +141,11 @@ GraphClosed ==
 (* an update or a simulation that raises changes nothing observable *)
 AllOrNothing ==
     [][out' \in {"raised", "update-raised"} => (tok' = tok /\ \A s \in Slots : chld'[tok[s]] = chld[tok[s]])]_vars
-TwinsPaired == sim.exists => Len(sim.prev) = Len(sim.new) /\ Len(sim.new) = Len(sim.slots)
-SimulatedValuesInstalled == sim.set => \A i \in DOMAIN sim.slots : tok[sim.slots[i]] = sim.new[i]
+TwinsPaired == \A k \in DOMAIN sims : Len(sims[k].prev) = Len(sims[k].new) /\ Len(sims[k].new) = Len(sims[k].slots)
+SimulatedValuesInstalled == \A k \in DOMAIN sims : sims[k].set => \A i \in DOMAIN sims[k].slots : tok[sims[k].slots[i]] = sims[k].new[i]
+(* a simulation that was asked to switch off is off: whatever was made on the system since, reset_values puts the baseline back *)
+ResetSwitchesOff == [][out' = "reset" => ~AnySet']_vars
 (* garbage tokens grow without bound: only what is observable identifies a state *)
 (* (a renaming of tokens would make the state space finite; instead the number of fresh tokens is bounded: next < 40) *)
-View == <<tok, [s \in Slots |-> chld[tok[s]]], base, <<sim.exists, sim.set, sim.slots, sim.prev, sim.new>>, out>>
+View == <<tok, [s \in Slots |-> chld[tok[s]]], base, sims, latest, out>>
 =============================================================================
